@@ -91,7 +91,7 @@ def _routing(repo, rep):
               construct="text-delivery", where=wh)
     # dispatch: kind 'text' -> visit_text
     v = repo.func("chameleon.program.ElementProgram.visit")
-    t = " ".join(src(s) for s in v.node.body)
+    t = L.text(v.node, body_only=True)
     rep.check("getattr(self, 'visit_%s' % kind)" in t and
               "visitor(*args)" in t, "R20.1", v.qualname,
               "kind 'text' is dispatched to visit_text", construct="dispatch",
@@ -205,14 +205,13 @@ def _escape(repo, rep):
               construct="escape-default")
     # _pop_defaults must be able to switch escape off (False is not None)
     pd = repo.func(PROG + "_pop_defaults")
-    t = " ".join(src(s) for s in ast.walk(pd.node) if isinstance(s, ast.stmt))
+    t = L.text(pd.node)
     rep.check("if value is not None: setattr(self, attribute, value)" in t,
               "R20.2", pd.qualname, "a False option value overrides the "
               "class default (tested with 'is not None')",
               construct="false-overrides", where=L.where(pd))
     init = repo.func(PROG + "__init__")
-    t = " ".join(src(s) for s in ast.walk(init.node)
-                 if isinstance(s, ast.stmt))
+    t = L.text(init.node)
     rep.check("'escape'" in t, "R20.2", init.qualname, "'escape' is among "
               "the options the program accepts", construct="escape-option",
               where=L.where(init))
@@ -220,7 +219,7 @@ def _escape(repo, rep):
 
 def _bytes(repo, rep):
     f = repo.func(ZT + "PageTextTemplateFile.render")
-    t = " ".join(src(s) for s in f.node.body)
+    t = L.text(f.node, body_only=True)
     rep.check("result = super().render(**vars)" in t and
               "return result.encode(self.encoding or 'utf-8')" in t, "R20.3",
               f.qualname, "render() returns the rendered text encoded with "
